@@ -40,6 +40,7 @@ class BaseRandomLineAccessFile(collections.abc.Sequence, Generic[C], ABC):
         self._dirty = False
         self._lines: MutableSequence[Union[int, str]] = [] if lines is None else lines
         self._sequential_index = lines is None  # a caller-supplied index may be a subset or permutation of lines
+        self._cursor_owner = None  # the iteration that positioned the file cursor last (None: somebody else)
 
     @property
     def dirty(self) -> bool:
@@ -79,9 +80,16 @@ class BaseRandomLineAccessFile(collections.abc.Sequence, Generic[C], ABC):
             for n in range(len(self)):
                 yield self._read_line(n)
         else:
-            self._file_seek(0)
+            me = object()  # marks this iteration as the last user of the file cursor
             for n in range(len(self)):
-                yield self._read_next_line()
+                if self._cursor_owner is me:
+                    # the cursor is right behind our previous line
+                    line = self._read_next_line()
+                else:
+                    # somebody else (indexing, another iteration) moved the cursor in the meantime
+                    line = self._read_line(n)
+                    self._cursor_owner = me
+                yield line
 
     @abstractmethod
     def _file_seek(self, offset: int):
@@ -274,6 +282,7 @@ class RandomLineAccessFile(BaseRandomLineAccessFile[str]):
 
     def _file_seek(self, offset: int):
         self.reopen_if_needed()
+        self._cursor_owner = None
         self.file.seek(offset)
 
     def _read_line(self, n: int) -> str:
@@ -307,6 +316,7 @@ class MemoryMappedRandomLineAccessFile(RandomLineAccessFile):
 
     def _file_seek(self, offset: int):
         self.reopen_if_needed()
+        self._cursor_owner = None
         self.mm.seek(offset)
 
     def _read_line(self, n: int) -> str:
